@@ -29,6 +29,9 @@ Definition model_dt_table : list (N * N) :=
 
 Definition case_t : Type := list op.
 
+(* run-length helper for long byte strings in generated case files *)
+Definition repN (n : N) (b : N) : list N := repeat b (N.to_nat n).
+
 (* ---- decidable equalities ---- *)
 Definition series_eqb (a b : series) : bool :=
   (s_dt a =? s_dt b) && (s_ts a =? s_ts b) && (s_te a =? s_te b) && (s_al a =? s_al b) &&
@@ -123,7 +126,7 @@ Fixpoint mrun (V : variant) (e : env) (ops : list op) : bool :=
   | o :: r => let '(e', bad) := mstep V e o in bad || mrun V e' r
   end.
 
-Definition model_variant : variant := upstream.
+Definition model_variant : variant := current.
 Definition mismatch (c : case_t) : bool := mrun model_variant [] c.
 
 (* ---- validity of a frame for an encoder state (the "valid frame over the agreed channel
